@@ -10,13 +10,14 @@ from harness import c09
 
 P = 'C03'
 M1 = True
-ENCODED = ['Reader (all methods; bytes input through the codec models M4)', 'Scanner (all methods)', 'Parser (all methods)', 'Composer',
+ENCODED = ['Resolver.yaml_implicit_resolvers (every pattern, as a z3 regular expression: termination of the matcher)', 'Reader (all methods; bytes input through the codec models M4)', 'Scanner (all methods)', 'Parser (all methods)', 'Composer',
            'via yaml.scan / yaml.parse / yaml.compose_all']
 BOUNDS = {'quick': 'every str len<=2 (all code points); templates: "\\<c><8 hex>" (c, h1..h8 free), %<3>, %YAML <3>, %TAG <1> <2>, '
                    '!<..>, !x!y, !%hh, &xx, *xx, |xx LF yy; indicator soup len<=4; bytes len<=2 through Reader',
           'thorough': 'str len<=3; templates with one more free character; soup len<=5; bytes len<=3'}
 OUTSIDE = 'LibYAML back-end; nesting beyond the recursion limit; inputs longer than the bounds except through the templates'
-ASSUMPTIONS = ['M1/M1b placeholders for error messages', 'M3 int(hex) model', 'M4 codec models in place of the C codecs (differentially self-tested)']
+ASSUMPTIONS = ['termination of a pattern match is decided as: no unbounded repetition in the pattern has an ambiguous factorisation (z3 regex query, cvc5 second opinion); polynomial slow-downs from adjacent repetitions are not "hangs" and are not flagged; a satisfiable query counts only if the real matcher then fails to finish in 20 s on the pumped witness',
+               'M1/M1b placeholders for error messages', 'M3 int(hex) model', 'M4 codec models in place of the C codecs (differentially self-tested)']
 
 CODECS = types.SimpleNamespace(BOM_UTF16_LE=codecs.BOM_UTF16_LE, BOM_UTF16_BE=codecs.BOM_UTF16_BE,
                                utf_8_decode=pymodels.utf_8_decode, utf_16_le_decode=pymodels.utf_16_le_decode,
@@ -154,6 +155,71 @@ def bytes_pipeline(b: bytes) -> str:
         return fail(P, 'bytes ' + exc_sig(e))
     return 'ok'
 
+
+
+def _timed(code, timeout):
+    """run `code` in a fresh interpreter of the library under test; -> True if it finished"""
+    import subprocess
+    import sys
+    from symex import hlib
+    try:
+        subprocess.run(['/venv/bin/python', '-c', 'import sys; sys.path.insert(0, %r)\n%s' % (hlib.REPO_LIB, code)], timeout=timeout, capture_output=True)
+        return True
+    except subprocess.TimeoutExpired:
+        return False
+
+
+HANG_S = 20
+
+
+def resolve_terminates(s):
+    """composing the plain scalar `s` (Resolver.resolve on its text, then the whole pipeline) finishes"""
+    reach()
+    if not _timed('import yaml\nyaml.SafeLoader("").resolve(yaml.ScalarNode, %r, (True, False))' % s, HANG_S):
+        return fail(P, 'HANG Resolver.resolve does not finish within %d s on a %d-character scalar' % (HANG_S, len(s)), s=s)
+    if not _timed('import yaml\ntry:\n    yaml.compose(%r)\nexcept yaml.YAMLError:\n    pass' % s, HANG_S):
+        return fail(P, 'HANG yaml.compose does not finish within %d s on a %d-character input' % (HANG_S, len(s)), s=s)
+    return 'ok'
+
+
+def smt_checks(tier):
+    """Termination of the implicit-resolver matchers: every unbounded repetition in every pattern
+    the composer runs on untrusted scalars is unambiguous (see smt/rex.py), so the backtracking
+    matcher is never forced through exponentially many factorisations."""
+    from smt import rex
+    res = []
+    seen = {}
+    for ch, lst in sorted(yaml.resolver.Resolver.yaml_implicit_resolvers.items(), key=lambda kv: repr(kv[0])):
+        for tag, rx in lst:
+            seen.setdefault((tag, rx.pattern), rx)
+    for (tag, _), rx in sorted(seen.items()):
+        short = tag.rsplit(':', 1)[-1]
+        try:
+            reps = rex.repeats(rx)
+        except rex.Unsupported as e:
+            res.append({'name': 'regex-termination/%s' % short, 'status': 'inconclusive', 'seconds': 0, 'witness': str(e)})
+            continue
+        for path, pre, body, alts in reps:
+            st, w, dt, n = rex.ambiguous_repeat(pre, body, alts)
+            q = {'name': 'regex-termination/%s%s' % (short, path), 'seconds': round(dt, 3), 'checks': n}
+            if st == 'unsat':
+                q['status'] = 'held'
+            elif st == 'sat':
+                prefix, word = w
+                q['status'] = 'inconclusive'
+                q['witness'] = 'ambiguous repetition (%r then %r repeated) but the matcher finishes on it' % (prefix, word)
+                for tail in ['x', '_', '~', '\x01']:
+                    t = prefix + word * 40 + tail
+                    if not _timed('import yaml\nyaml.SafeLoader("").resolve(yaml.ScalarNode, %r, (True, False))' % t, HANG_S):
+                        q['status'] = 'violated'
+                        q['witness'] = t
+                        q['replay'] = {'module': 'c03', 'fn': 'resolve_terminates', 'args': '{%r: %r}' % ('s', t)}
+                        break
+            else:
+                q['status'] = 'inconclusive'
+                q['witness'] = st
+            res.append(q)
+    return res
 
 def selftests():
     return [pymodels.selftest_codecs(), pymodels.selftest_int_float()]
